@@ -33,6 +33,9 @@ theorem D_resetPollerEvent (g : Cfg) (s : S) : D (resetPollerEvent g s) = D s :=
     · exact D_pModWrite _ _
   · rfl
 
+theorem D_ghost (s : S) (e y : Bool) : D (ghost s e y) = D s := rfl
+theorem E_ghost (s : S) (e y : Bool) : E (ghost s e y) = E s := rfl
+
 /-! ### queue helpers -/
 
 theorem enqueue_spec (g : Cfg) (s : S) (b : Bytes) (hp : AllPos s.wl) :
@@ -695,12 +698,12 @@ theorem invD_timerFire (g : Cfg) (s : S) (hi : InvD g s) : InvD g (timerFire s) 
 theorem invD_step (g : Cfg) (s : S) (op : Op) (hi : InvD g s) (htp : s.tearPending = true → s.closed = true) :
     InvD g (step g s op) := by
   cases op with
-  | write b k => exact invD_write g s b k hi
-  | writev bs k => exact invD_writev g s bs k hi
-  | sendfile off len ks => exact invD_sendfile g s off len ks hi
-  | register => exact invD_register g s hi
-  | registerDial => exact invD_registerDial g s hi
-  | evTake o i e ks => exact invD_evTake g s o i e ks hi
+  | write b ks => exact (invD_write g s b _ hi).of_D (D_ghost _ _ _)
+  | writev bs ks => exact (invD_writev g s bs _ hi).of_D (D_ghost _ _ _)
+  | sendfile off len ks => exact (invD_sendfile g s off len ks hi).of_D (D_ghost _ _ _)
+  | register => exact (invD_register g s hi).of_D (D_ghost _ _ _)
+  | registerDial => exact (invD_registerDial g s hi).of_D (D_ghost _ _ _)
+  | evTake o i e ks => exact (invD_evTake g s _ i e ks hi).of_D (D_ghost _ _ _)
   | evEnd => exact invD_evEnd g s hi
   | flipClosed => exact invD_flipClosed g s hi
   | teardown => exact invD_teardown g s hi htp
